@@ -139,24 +139,85 @@ theorem packFixedLoop_fixedSize (h : Handle α) : ∀ (n : Nat) (t : Tracker) (b
     · rfl
     · rw [ih]; simp
 
+/-! ### loops
+
+The translator emits every loop as `loopG ok cond body fuel state` with `cond` / `body` written as local lambdas over
+the loop state (they may capture locals of the enclosing function).  `loopG_congr` replaces such a lambda by the
+*canonical* condition / body below whenever the two agree on every state the loop can reach (invariant `I`: the
+tracker's `fixedSize` is the one the function started with), so the structural proofs are about the canonical forms
+only and any spelling of the source that computes the same state transformer is accepted. -/
+
+theorem loopG_congr {σ : Type} (I : σ → Prop) (ok c c' : σ → Bool) (f f' : σ → σ)
+    (hc : ∀ s, I s → ok s = true → c s = c' s)
+    (hf : ∀ s, I s → ok s = true → c' s = true → f s = f' s)
+    (hI : ∀ s, I s → ok s = true → c' s = true → I (f' s)) :
+    ∀ (n : Nat) (s : σ), I s → loopG ok c f n s = loopG ok c' f' n s := by
+  intro n
+  induction n with
+  | zero => intro s _; rfl
+  | succ n ih =>
+    intro s hs
+    simp only [loopG]
+    by_cases hok : ok s = true
+    · have h1 := hc s hs hok
+      by_cases hcs : c' s = true
+      · have h2 := hf s hs hok hcs
+        have h3 := hI s hs hok hcs
+        simp only [hok, h1, hcs, Bool.and_self, if_true]
+        rw [h2]; exact ih _ h3
+      · simp [hok, h1, hcs]
+    · simp [hok]
+
+/-- the loop body of the fixed-size branch of `PackEntries` -/
+def canPackBody1 (h : Handle α) (s : St α) : St α :=
+  ⟨s.t.moveToNextIndex, s.b.write (h.data s.t.cur), s.acc, s.calls⟩
+/-- `!tracker.finished() && buffer.hasSpaceForItems(handle.size(tracker.index()))` -/
+def canPackCond2 (h : Handle α) (s : St α) : Bool := !s.t.finished && s.b.hasSpaceForItems (h.size s.t.cur)
+def canPackBody2 (h : Handle α) (s : St α) : St α :=
+  ⟨s.t.moveToNextIndex, s.b.write (h.data s.t.cur), s.acc + h.size s.t.cur, s.calls⟩
+/-- the loop body of the fixed-size branch of `UnpackEntries`; `F` = the tracker's fixed size -/
+def canUnpackBody1 (F : Nat) (s : St α) : St α :=
+  ⟨s.t.moveToNextIndex, (s.b.read F).2, s.acc, s.calls ++ [⟨s.t.cur, F, (s.b.read F).1⟩]⟩
+def canUnpackCond2 (c : Nat) (s : St α) : Bool := decide (s.acc < c)
+def canUnpackBody2 (s : St α) : St α :=
+  ⟨s.t.moveToNextIndex, (s.b.read s.t.sizeHere).2, s.acc + s.t.sizeHere,
+   s.calls ++ [⟨s.t.cur, s.t.sizeHere, (s.b.read s.t.sizeHere).1⟩]⟩
+/-- `!tracker.finished() && !handle.size(tracker.index())` -/
+def canSendCond1 (h : Handle α) (s : St α) : Bool := !s.t.finished && decide (h.size s.t.cur = 0)
+def canSendBody1 (s : St α) : St α := ⟨s.t.moveToNextIndex, s.b, s.acc, s.calls⟩
+
+theorem finished_cons (t : Tracker) (i : Nat) (is : List Nat) (h : t.iface = i :: is) : t.finished = false := by
+  unfold Tracker.finished; simp [h]
+
+/-- side goals of `loopG_congr`: generated condition = canonical condition -/
+macro "src_cond" : tactic =>
+  `(tactic| (intro s hs _;
+             first
+             | (simp [canPackCond2, canUnpackCond2, canSendCond1, gen_finished, gen_hasSpace, gen_indicesLeft, hs]; done)
+             | (simp only [canPackCond2, canUnpackCond2, canSendCond1, gen_finished, gen_hasSpace, gen_indicesLeft, hs];
+                rw [Bool.eq_iff_iff]; simp; omega)
+             | (simp only [canPackCond2, canUnpackCond2, canSendCond1, gen_finished, gen_hasSpace, gen_indicesLeft, hs];
+                cases s.t.finished <;> simp <;> omega)))
+/-- side goals of `loopG_congr`: generated body = canonical body -/
+macro "src_body" : tactic =>
+  `(tactic| (intro s hs _ _;
+             first
+             | (simp [canPackBody1, canPackBody2, canUnpackBody1, canUnpackBody2, canSendBody1, gen_moveToNextIndex,
+                      gen_skipZeroIndices, gen_increment, hs]; done)
+             | (simp [canPackBody1, canPackBody2, canUnpackBody1, canUnpackBody2, canSendBody1, gen_moveToNextIndex,
+                      gen_skipZeroIndices, gen_increment, hs, Nat.add_comm]; done)
+             | (simp [canPackBody1, canPackBody2, canUnpackBody1, canUnpackBody2, canSendBody1, gen_moveToNextIndex,
+                      gen_skipZeroIndices, gen_increment, hs] <;> omega)))
+/-- side goals of `loopG_congr`: the canonical body keeps `fixedSize` -/
+macro "src_inv" : tactic =>
+  `(tactic| (intro s hs _ _;
+             simp [canPackBody1, canPackBody2, canUnpackBody1, canUnpackBody2, canSendBody1, hs]))
+
 /-! ### PackEntries -/
 
-theorem gen_packBody1 (h : Handle α) (c : Nat) (s : St α) :
-    Gen.packEntries_body1 h c s = ⟨s.t.moveToNextIndex, s.b.write (h.data s.t.cur), s.acc, s.calls⟩ := by
-  simp [Gen.packEntries_body1, gen_moveToNextIndex]
-
-theorem gen_packCond2 (h : Handle α) (c : Nat) (s : St α) (i : Nat) (is : List Nat) (hi : s.t.iface = i :: is) :
-    Gen.packEntries_cond2 h c s = s.b.hasSpaceForItems (h.size i) := by
-  simp [Gen.packEntries_cond2, gen_finished_cons _ i is hi, gen_hasSpace, Tracker.cur, hi]
-
-theorem gen_packBody2 (h : Handle α) (c : Nat) (s : St α) :
-    Gen.packEntries_body2 h c s =
-      ⟨s.t.moveToNextIndex, s.b.write (h.data s.t.cur), s.acc + h.size s.t.cur, s.calls⟩ := by
-  simp [Gen.packEntries_body2, gen_moveToNextIndex]
-
-theorem loopG_packFixed (h : Handle α) (c : Nat) : ∀ (n : Nat) (t : Tracker) (b : MessageBuffer α) (acc : Nat)
+theorem loopG_packFixed (h : Handle α) : ∀ (n : Nat) (t : Tracker) (b : MessageBuffer α) (acc : Nat)
     (cs : List (Call α)),
-    loopG St.okIface (fun _ => true) (Gen.packEntries_body1 h c) n ⟨t, b, acc, cs⟩ =
+    loopG St.okIface (fun _ => true) (canPackBody1 h) n ⟨t, b, acc, cs⟩ =
       ⟨(packFixedLoop h n t b).1, (packFixedLoop h n t b).2, acc, cs⟩ := by
   intro n
   induction n with
@@ -168,12 +229,13 @@ theorem loopG_packFixed (h : Handle α) (c : Nat) : ∀ (n : Nat) (t : Tracker) 
     | nil => simp [St.okIface, hi]
     | cons i is =>
       simp only [St.okIface, hi, List.isEmpty_cons, Bool.not_false, Bool.and_self, if_true]
-      rw [gen_packBody1, ih]
+      simp only [canPackBody1]
+      rw [ih]
       simp [Tracker.cur, hi]
 
-theorem loopG_packVar (h : Handle α) (c : Nat) : ∀ (fuel : Nat) (t : Tracker) (b : MessageBuffer α) (acc : Nat)
+theorem loopG_packVar (h : Handle α) : ∀ (fuel : Nat) (t : Tracker) (b : MessageBuffer α) (acc : Nat)
     (cs : List (Call α)),
-    loopG St.okIface (Gen.packEntries_cond2 h c) (Gen.packEntries_body2 h c) fuel ⟨t, b, acc, cs⟩ =
+    loopG St.okIface (canPackCond2 h) (canPackBody2 h) fuel ⟨t, b, acc, cs⟩ =
       ⟨(packVarLoop h fuel t b acc).2.1, (packVarLoop h fuel t b acc).2.2, (packVarLoop h fuel t b acc).1, cs⟩ := by
   intro fuel
   induction fuel with
@@ -184,12 +246,14 @@ theorem loopG_packVar (h : Handle α) (c : Nat) : ∀ (fuel : Nat) (t : Tracker)
     cases hi : t.iface with
     | nil => simp [St.okIface, hi]
     | cons i is =>
-      have hc := gen_packCond2 h c ⟨t, b, acc, cs⟩ i is hi
+      have hc : canPackCond2 h ⟨t, b, acc, cs⟩ = b.hasSpaceForItems (h.size i) := by
+        simp [canPackCond2, finished_cons t i is hi, Tracker.cur, hi]
       simp only [St.okIface, hi, List.isEmpty_cons, Bool.not_false, Bool.true_and]
       rw [hc]
       by_cases hfit : b.hasSpaceForItems (h.size i) = true
       · simp only [hfit, if_true]
-        rw [gen_packBody2, ih]
+        simp only [canPackBody2]
+        rw [ih]
         simp [Tracker.cur, hi]
       · simp [hfit]
 
@@ -197,57 +261,54 @@ theorem gen_packEntries (h : Handle α) (t : Tracker) (b : MessageBuffer α) :
     Gen.packEntries h t b = packEntries h t b := by
   unfold Gen.packEntries packEntries
   by_cases hf : t.fixedSize = 0
-  · simp [hf, loopG_packVar, gen_skipZeroIndices, Tracker.indicesLeft]
-  · simp [hf, loopG_packFixed, gen_indicesLeft, packFixedLoop_fixedSize]
+  · simp [hf, -Prod.mk.injEq]
+    rw [loopG_congr (fun s : St α => s.t.fixedSize = t.fixedSize) _ _ (canPackCond2 h) _ (canPackBody2 h)]
+    · simp [hf, loopG_packVar, gen_skipZeroIndices, Tracker.indicesLeft]
+    · src_cond
+    · src_body
+    · src_inv
+    · simp [gen_skipZeroIndices]
+  · simp [hf, -Prod.mk.injEq]
+    rw [loopG_congr (fun s : St α => s.t.fixedSize = t.fixedSize) _ _ (fun _ => true) _ (canPackBody1 h)]
+    · simp [hf, loopG_packFixed, gen_indicesLeft, packFixedLoop_fixedSize]
+    · intros; rfl
+    · src_body
+    · src_inv
+    · simp
 
 /-! ### UnpackEntries, UnpackSizeEntries -/
 
-theorem gen_unpackBody1 (h : Handle α) (c : Nat) (s : St α) :
-    Gen.unpackEntries_body1 h c s =
-      ⟨s.t.moveToNextIndex, (s.b.read s.t.fixedSize).2, s.acc,
-       s.calls ++ [⟨s.t.cur, s.t.fixedSize, (s.b.read s.t.fixedSize).1⟩]⟩ := by
-  simp [Gen.unpackEntries_body1, gen_moveToNextIndex]
-
-theorem gen_unpackCond2 (h : Handle α) (c : Nat) (s : St α) :
-    Gen.unpackEntries_cond2 h c s = decide (s.acc < c) := by
-  unfold Gen.unpackEntries_cond2
-  src_bool
-
-theorem gen_unpackBody2 (h : Handle α) (c : Nat) (s : St α) :
-    Gen.unpackEntries_body2 h c s =
-      ⟨s.t.moveToNextIndex, (s.b.read s.t.sizeHere).2, s.acc + s.t.sizeHere,
-       s.calls ++ [⟨s.t.cur, s.t.sizeHere, (s.b.read s.t.sizeHere).1⟩]⟩ := by
-  simp [Gen.unpackEntries_body2, gen_moveToNextIndex]
-
-theorem loopG_unpackFixed (h : Handle α) (c : Nat) : ∀ (n : Nat) (t : Tracker) (b : MessageBuffer α) (acc : Nat)
-    (cs : List (Call α)),
-    loopG St.okIface (fun _ => true) (Gen.unpackEntries_body1 h c) n ⟨t, b, acc, cs⟩ =
+theorem loopG_unpackFixed (F : Nat) : ∀ (n : Nat) (t : Tracker) (b : MessageBuffer α) (acc : Nat)
+    (cs : List (Call α)), t.fixedSize = F →
+    loopG St.okIface (fun _ => true) (canUnpackBody1 F) n ⟨t, b, acc, cs⟩ =
       ⟨(unpackFixedLoop n t b cs).1, (unpackFixedLoop n t b cs).2.1, acc, (unpackFixedLoop n t b cs).2.2⟩ := by
   intro n
   induction n with
-  | zero => intro t b acc cs; rfl
+  | zero => intro t b acc cs _; rfl
   | succ n ih =>
-    intro t b acc cs
+    intro t b acc cs hF
     rw [loopG, unpackFixedLoop]
     cases hi : t.iface with
     | nil => simp [St.okIface, hi]
     | cons i is =>
       simp only [St.okIface, hi, List.isEmpty_cons, Bool.not_false, Bool.and_self, if_true]
-      rw [gen_unpackBody1, ih]
-      simp [Tracker.cur, hi]
+      simp only [canUnpackBody1]
+      rw [ih _ _ _ _ (by simp [hF])]
+      simp [Tracker.cur, hi, hF]
 
-theorem loopG_unpackVar (h : Handle α) (c : Nat) : ∀ (fuel : Nat) (t : Tracker) (b : MessageBuffer α) (acc : Nat)
+theorem loopG_unpackVar (c : Nat) : ∀ (fuel : Nat) (t : Tracker) (b : MessageBuffer α) (acc : Nat)
     (cs : List (Call α)),
-    ((loopG St.okSizes (Gen.unpackEntries_cond2 h c) (Gen.unpackEntries_body2 h c) fuel ⟨t, b, acc, cs⟩).t,
-     (loopG St.okSizes (Gen.unpackEntries_cond2 h c) (Gen.unpackEntries_body2 h c) fuel ⟨t, b, acc, cs⟩).b,
-     (loopG St.okSizes (Gen.unpackEntries_cond2 h c) (Gen.unpackEntries_body2 h c) fuel ⟨t, b, acc, cs⟩).calls) =
+    ((loopG St.okSizes (canUnpackCond2 c) canUnpackBody2 fuel ⟨t, b, acc, cs⟩).t,
+     (loopG St.okSizes (canUnpackCond2 c) canUnpackBody2 fuel ⟨t, b, acc, cs⟩).b,
+     (loopG St.okSizes (canUnpackCond2 c) canUnpackBody2 fuel ⟨t, b, acc, cs⟩).calls) =
       unpackVarLoop c fuel acc t b cs := by
   intro fuel
   induction fuel with
   | zero => intro t b acc cs; rfl
   | succ fuel ih =>
     intro t b acc cs
-    rw [loopG, unpackVarLoop, gen_unpackCond2]
+    rw [loopG, unpackVarLoop]
+    simp only [canUnpackCond2]
     by_cases hlt : acc < c
     · cases hi : t.iface with
       | nil => simp [St.okSizes, hi, hlt]
@@ -256,7 +317,8 @@ theorem loopG_unpackVar (h : Handle α) (c : Nat) : ∀ (fuel : Nat) (t : Tracke
         | nil => simp [St.okSizes, hi, hs, hlt]
         | cons s ss =>
           simp only [St.okSizes, hi, hs, hlt, List.isEmpty_cons, Bool.not_false, Bool.and_self, decide_true, if_true]
-          rw [gen_unpackBody2, ih]
+          simp only [canUnpackBody2]
+          rw [ih]
           simp [Tracker.cur, Tracker.sizeHere, hi, hs]
     · simp [hlt]
 
@@ -264,9 +326,20 @@ theorem gen_unpackEntries (t : Tracker) (b : MessageBuffer α) (count : Nat) (cs
     Gen.unpackEntries t b count cs = unpackEntries t b count cs := by
   unfold Gen.unpackEntries unpackEntries
   by_cases hf : t.fixedSize = 0
-  · simp only [hf, ne_eq, not_true_eq_false, decide_false, if_false, Bool.false_eq_true]
-    exact loopG_unpackVar _ count t.indicesLeft t b 0 cs
-  · simp [hf, loopG_unpackFixed, gen_indicesLeft]
+  · simp [hf, -Prod.mk.injEq]
+    rw [loopG_congr (fun s : St α => s.t.fixedSize = t.fixedSize) _ _ (canUnpackCond2 count) _ canUnpackBody2]
+    · exact loopG_unpackVar count t.indicesLeft t b 0 cs
+    · src_cond
+    · src_body
+    · src_inv
+    · simp
+  · simp [hf, -Prod.mk.injEq]
+    rw [loopG_congr (fun s : St α => s.t.fixedSize = t.fixedSize) _ _ (fun _ => true) _ (canUnpackBody1 t.fixedSize)]
+    · simp [hf, loopG_unpackFixed, gen_indicesLeft]
+    · intros; rfl
+    · src_body
+    · src_inv
+    · simp
 
 theorem gen_unpackSizeEntries (t : Tracker) (b : MessageBuffer Nat) (dst : List Nat) :
     Gen.unpackSizeEntries t b dst = unpackSizeEntries t b dst := by
@@ -274,17 +347,9 @@ theorem gen_unpackSizeEntries (t : Tracker) (b : MessageBuffer Nat) (dst : List 
 
 /-! ### SetupSendRequest / SetupRecvRequest -/
 
-theorem gen_sendCond1 (h : Handle α) (c : Nat) (s : St α) (i : Nat) (is : List Nat) (hi : s.t.iface = i :: is) :
-    Gen.setupSend_cond1 h c s = decide (h.size i = 0) := by
-  simp [Gen.setupSend_cond1, gen_finished_cons _ i is hi, Tracker.cur, hi]
-
-theorem gen_sendBody1 (h : Handle α) (c : Nat) (s : St α) :
-    Gen.setupSend_body1 h c s = ⟨s.t.moveToNextIndex, s.b, s.acc, s.calls⟩ := by
-  simp [Gen.setupSend_body1, gen_moveToNextIndex]
-
-theorem loopG_skipZeroSend (h : Handle α) (c : Nat) : ∀ (fuel : Nat) (t : Tracker) (b : MessageBuffer α) (acc : Nat)
+theorem loopG_skipZeroSend (h : Handle α) : ∀ (fuel : Nat) (t : Tracker) (b : MessageBuffer α) (acc : Nat)
     (cs : List (Call α)),
-    loopG St.okIface (Gen.setupSend_cond1 h c) (Gen.setupSend_body1 h c) fuel ⟨t, b, acc, cs⟩ =
+    loopG St.okIface (canSendCond1 h) canSendBody1 fuel ⟨t, b, acc, cs⟩ =
       ⟨skipZeroSend h fuel t, b, acc, cs⟩ := by
   intro fuel
   induction fuel with
@@ -295,19 +360,27 @@ theorem loopG_skipZeroSend (h : Handle α) (c : Nat) : ∀ (fuel : Nat) (t : Tra
     cases hi : t.iface with
     | nil => simp [St.okIface, hi]
     | cons i is =>
-      have hc := gen_sendCond1 h c ⟨t, b, acc, cs⟩ i is hi
+      have hc : canSendCond1 h ⟨t, b, acc, cs⟩ = decide (h.size i = 0) := by
+        simp [canSendCond1, finished_cons t i is hi, Tracker.cur, hi]
       simp only [St.okIface, hi, List.isEmpty_cons, Bool.not_false, Bool.true_and]
       rw [hc]
       by_cases hz : h.size i = 0
       · simp only [hz, decide_true, if_true]
-        rw [gen_sendBody1, ih]
+        simp only [canSendBody1]
+        rw [ih]
       · simp [hz]
 
 theorem gen_setupSend (h : Handle α) (t : Tracker) (b : MessageBuffer α) :
     Gen.setupSend h t b = setupSend h t b := by
   unfold Gen.setupSend setupSend
-  simp [gen_packEntries, loopG_skipZeroSend, Tracker.indicesLeft]
-  <;> (generalize (packEntries h t b.reset).1 = n; cases n <;> simp)
+  simp only [gen_packEntries]
+  rw [loopG_congr (fun _ : St α => True) _ _ (canSendCond1 h) _ canSendBody1]
+  · simp [loopG_skipZeroSend, Tracker.indicesLeft]
+    <;> (generalize (packEntries h t b.reset).1 = n; cases n <;> simp)
+  · src_cond
+  · src_body
+  · intros; trivial
+  · trivial
 
 theorem finished_eq_left (t : Tracker) : t.finished = decide (t.indicesLeft = 0) := by
   unfold Tracker.finished Tracker.indicesLeft; cases t.iface <;> simp
